@@ -19,6 +19,7 @@ fn main() {
         "C13" => e3::c13(&args),
         "C15" => e4_c15::c15(&args),
         "C20" => e4_se::c20(&args),
+        "C21" | "C22" | "C23" => e1_prov::run(&args),
         "C31" => e5::c31(&args),
         "C28" => e5::c28(&args),
         "C11" => e2_store::c11(&args),
